@@ -60,6 +60,9 @@ fn main() {
         "c10" => vmon::c10::run(&p),
         "c11" => vmon::filt::run_c11(&p),
         "c13" => vmon::c13::run(&p),
+        "c14" => vmon::c14::run(&p),
+        "c15" => vmon::c15::run(&p),
+        "c16" => vmon::c16::run(&p),
         "c17" => vmon::c17::run(&p),
         "c18" => vmon::c18::run(&p),
         "c19" => vmon::c19::run(&p),
